@@ -203,6 +203,8 @@ struct Worker {
     shred_cache: HashMap<ShredKey, Vec<Shred>>,
     shred_order: Vec<ShredKey>,
     rng: StdRng,
+    /// the last concretised message (consecutive cases mutate the same message)
+    last: Option<(String, Ty, std::rc::Rc<Msg>, std::rc::Rc<Vec<u8>>)>,
 }
 
 fn slice_index(i: usize) -> SliceIndex {
@@ -248,6 +250,7 @@ impl Worker {
             shred_cache: HashMap::new(),
             shred_order: Vec::new(),
             rng: StdRng::seed_from_u64(seed.wrapping_mul(31).wrapping_add(id)),
+            last: None,
         }
     }
 
@@ -314,6 +317,20 @@ impl Worker {
         let tree = DoubleMerkleTree::new(&leaves);
         let idx = si.min(leaves.len() - 1);
         (leaves[idx].clone(), tree.create_proof(idx))
+    }
+
+    fn build_cached(&mut self, m: &Value) -> (Ty, std::rc::Rc<Msg>, std::rc::Rc<Vec<u8>>) {
+        let key = m.to_string();
+        if let Some((k, ty, msg, bytes)) = &self.last {
+            if *k == key {
+                return (*ty, msg.clone(), bytes.clone());
+            }
+        }
+        let (ty, msg) = self.build(m);
+        let bytes = std::rc::Rc::new(msg.encode());
+        let msg = std::rc::Rc::new(msg);
+        self.last = Some((key, ty, msg.clone(), bytes.clone()));
+        (ty, msg, bytes)
     }
 
     /// Descriptor -> the message a correct node would emit.
@@ -491,14 +508,13 @@ fn run_case(w: &mut Worker, c: &Value, rep: &mut CaseReport) {
         c,
     );
     // 1. concretise
-    let (ty, base) = match caught(|| w.build(&c["m"])) {
+    let (ty, base, bytes) = match caught(|| w.build_cached(&c["m"])) {
         Ok(x) => x,
         Err(p) => {
             rep.diverge(&fp("build.panic"), &["build"], c, json!("message"), json!({"panic": p}));
             return;
         }
     };
-    let bytes = base.encode();
     // 2. size = spec size <= one datagram
     let size = us(c, "size");
     if bytes.len() != size {
@@ -508,7 +524,7 @@ fn run_case(w: &mut Worker, c: &Value, rep: &mut CaseReport) {
     if mal == "none" && bytes.len() > MTU_BYTES {
         rep.diverge(&fp("mtu"), &["size"], c, json!(MTU_BYTES), json!(bytes.len()));
     }
-    if let Msg::Shred(s) = &base {
+    if let Msg::Shred(s) = &*base {
         let kind = if s.is_data() { "data" } else { "coding" };
         if kind != st(c, "kind") {
             rep.diverge(&fp("kind"), &["kind"], c, c["kind"].clone(), json!(kind));
